@@ -102,6 +102,14 @@ func HarnessC20MetricsSubscriber() {
 	go func() { inner.ch <- m }()
 	got := <-ch
 	vrt.Assert(got == m, "the message passes through unmodified (same object)")
+	republished := vrt.Bool("received.message.published.on")
+	if republished {
+		// a pass-through handler: the very message object that came in through the metrics subscriber decorator goes
+		// out through the metrics publisher decorator
+		outPub, err := b.DecoratePublisher(&mPub{})
+		vrt.Assert(err == nil, "publisher decorated")
+		vrt.Assert(outPub.Publish("out", got) == nil, "published on")
+	}
 	nack := vrt.Bool("nack")
 	closeFirst := vrt.Bool("close.before.settle")
 	if vrt.Bool("message.context.cancelled.before.settle") {
@@ -122,6 +130,9 @@ func HarnessC20MetricsSubscriber() {
 		label := "acked"
 		if nack {
 			label = "nacked"
+		}
+		if republished {
+			vrt.Assert(models.PromTotal(reg, "ns_sub_publish_time_seconds") == 1, "every publish call is counted exactly once, also for a message that was received through the metrics subscriber")
 		}
 		vrt.Assert(models.PromTotal(reg, "ns_sub_subscriber_messages_received_total") == 1, "every settled received message is counted exactly once, also when decorated twice")
 		vrt.Assert(models.PromCount(reg, "ns_sub_subscriber_messages_received_total", map[string]string{
